@@ -895,6 +895,9 @@ class sptensor:
         if isinstance(other, ttb.tensor) and self.shape != other.shape:
             assert False, "Sptensor and tensor must be same shape for innerproduct"
 
+        if isinstance(other, (ttb.ktensor, ttb.ttensor)) and self.shape != other.shape:
+            assert False, "Innerproduct must be between tensors of the same size"
+
         # If all entries are zero innerproduct must be 0
         if self.nnz == 0:
             return 0
